@@ -370,7 +370,7 @@ impl VoxelSet {
             .voxels
             .iter()
             .filter(|v| v.is_on_surface)
-            .step_by(sampling as usize)
+            .step_by(sampling.max(1) as usize)
         {
             self.map_voxel_points(voxel, |p| points.push(p));
         }
@@ -394,7 +394,7 @@ impl VoxelSet {
             .voxels
             .iter()
             .filter(|v| v.is_on_surface)
-            .step_by(sampling as usize)
+            .step_by(sampling.max(1) as usize)
         {
             self.map_voxel_points(voxel, |p| points.push(p));
         }
